@@ -108,6 +108,15 @@ Fixpoint close (p : proc) (l : list proc) : list proc :=
 Definition drop_handle (h : Z) (l : list proc) : list proc :=
   filter (fun p => match p with PFeat h' => negb (Z.eqb h h') | _ => true end) l.
 
+Definition is_le (k : conn) : bool := match k_tr k with LE => true | BR => false end.
+
+(* a connection to the peer is established, or a Create Connection for it is still unanswered
+   (in the code: classic_connections[a].handle <> 0, or the future of the LMP host connection
+   request to a is not done; the latter holds exactly while the procedure is open) *)
+Definition classic_busy (s : pstate) (a : Z) : bool :=
+  existsb (proc_eqb (PClassic a)) (p_open s)
+  || existsb (fun k => Z.eqb (k_addr k) a && negb (is_le k)) (p_conns s).
+
 Definition upd (s : pstate) pend conns opn tto : pstate :=
   mkP pend conns opn tto (p_from s) (p_present s) (p_peer_conn s) (p_peer_req s).
 
@@ -147,7 +156,8 @@ Definition step_cmd (s : pstate) (c : cmd) : pstate * list out :=
       match p_pend_le s with
       | Some _ => (s, [Status op 58])
       | None =>
-          if memz a (p_present s) then
+          if classic_busy s a then (s, [Status op 11])       (* Connection Already Exists (D03k) *)
+          else if memz a (p_present s) then
             (upd s None (p_conns s) (p_open s ++ [PClassic a]) (p_to s ++ [(a, HostConnReq)]), [Status op 0])
           else (s, [Status op 0; Conn 4 0 a])
       end
@@ -282,17 +292,11 @@ Definition open_ended (s : pstate) (p : proc) : bool :=
   | _ => false
   end.
 
-(* hypotheses of the conclusion theorem, as a boolean check along the settled run:
-   - no peer leaves the link without terminating its connections (witness class of D03i);
-   - no second Create Connection for a peer while one is pending or connected (witness class of
-     D03k: bumble overwrites the first request) *)
-Definition is_le (k : conn) : bool := match k_tr k with LE => true | BR => false end.
+(* hypothesis of the conclusion theorem, as a boolean check along the settled run: no peer
+   leaves the link without terminating its connections (witness class of D03i) *)
 Definition ext_ok (s : pstate) (x : op) : bool :=
   match x with
   | Remove _ => false
-  | Cmd (ClassicCreate a) =>
-      negb (existsb (proc_eqb (PClassic a)) (p_open s))
-      && negb (existsb (fun k => Z.eqb (k_addr k) a && negb (is_le k)) (p_conns s))
   | _ => true
   end.
 Fixpoint wf_ext (s : pstate) (xs : list op) : bool :=
